@@ -10,6 +10,8 @@ Intrusive lists (`k` < 8 list ids, `e` < 16 element ids):
 * `M e2 e`   `new elem(std::move(*e))`       * `A a b`   `*a = std::move(*b)`
 * `LM k2 k`  `new list(std::move(*k))`       * `LA k k2` `*k = std::move(*k2)`
 * `LD k`     `delete list k`
+* `LS k k2`  `std::swap(*k, *k2)`            * `ES a b`  `std::swap(*a, *b)`   (the generic `std::swap`: move-construct a
+  temporary, two move assignments, destroy the temporary — list id 7 / element id 15 are reserved for it; `k = k2`, `a = b`: self-swap)
 
 Iterator objects (`i`, `j` < 8 slots; a slot holds a `list::iterator` or a `list::const_iterator`):
 
@@ -33,7 +35,7 @@ instantiations: `S` = `object<int(int), unregister::base>`, `P` = `object<int(in
 * `SN s c` / `PN s c` / `VN s` / `WN s`     construct
 * `SC x s f u` / `PC x s f` / `VC x s f u` / `WC x s f`   `holder_x = optional_auto_connection{s.connect(callback_f [, unregister_u])}`
 * `SX h`          `holder_h = optional_auto_connection{}`       (the connection it holds dies)
-* `SM s2 s`, `SA s s2`, `SD s`   move-construct, move-assign, destroy
+* `SM s2 s`, `SA s s2`, `SD s`   move-construct, move-assign, destroy;  `SS s s2`  `std::swap(s, s2)` (temporary: signal id 7)
 * `call s init arg` (int signals), `vcall s arg` (void signals)
 * owners: `HA a b` `holder_a = std::move(holder_b)`; `HW a b` `std::swap(holder_a, holder_b)`;
   `KP c h` `container_c.push_back(std::move(*holder_h))`; `KO c h` `holder_h = std::move(container_c.back()); pop_back()`;
@@ -460,7 +462,28 @@ def handleRcall (st : St) (s init arg : Nat) (isVoid : Bool) : St × String :=
   | .error .emptyDeref => (st, "ok nocomb")
   | .error f => ({ st with dead := true }, "fault:" ++ f.name)
 
+def tmpList : Nat := 7
+def tmpElem : Nat := 15
+
+/-- `std::swap` of two lists / elements / signals: the operations the generic `std::swap` performs, in order -/
+def parseSwap (t : List String) : Option (List String × List (List String)) :=
+  match t with
+  | ["LS", k, k2] => some ([k, k2], [["LM", "7", k], ["LA", k, k2], ["LA", k2, "7"], ["LD", "7"]])
+  | ["ES", a, b] => some ([a, b], [["M", "15", a], ["A", a, b], ["A", b, "15"], ["d", "15"]])
+  | ["SS", s, s2] => some ([s, s2], [["SM", "7", s], ["SA", s, s2], ["SA", s2, "7"], ["SD", "7"]])
+  | _ => none
+
 def handle2 (st : St) (t : List String) : St × String :=
+  match parseSwap t with
+  | some (args, steps) =>
+    -- the reserved ids may not be named by the caller
+    let lim := if t.head? == some "ES" then tmpElem else tmpList
+    if st.dead then (st, "dead") else
+    if !(args.all fun a => match a.toNat? with | some n => n < lim | none => false) then (st, "bad-op") else
+    let r := steps.foldl (fun (acc : St × String) step =>
+      if acc.2 == "bad-op" || acc.2.startsWith "fault" then acc else handle acc.1 step) (st, "")
+    if r.2 == "bad-op" then (st, "bad-op") else r
+  | none =>
   match handleAct st t with
   | some none => (st, "bad-op")
   | some (some st') => (st', "ok")
